@@ -234,6 +234,8 @@ def show(t: Any, depth: int = 0) -> str:
         return f"<havoc#{t[1]} {show(t[2], d)}>"
     if k == "not":
         return f"(not {show(t[1], d)})"
+    if k in ("lambda", "comp", "fstr", "slice"):
+        return f"<{k}>"
     return repr(t)
 
 
